@@ -46,11 +46,13 @@ type FnContract struct {
 	Harness  string            // engine-built input state (e.g. flat-RAM CPU)
 	HArgs    map[string]string // role -> parameter name
 	Ops      string            // "all" or comma list of opcodes for harnesses that enumerate op
+	MayPanic bool
+	Split    string // "<expr> <lo>..<hi>": ensures obligations are split by the value of expr
 	NoSafety bool              // implicit runtime-panic obligations are assumed (proved under another property)
 }
 
 var clauseKW = map[string]bool{"requires": true, "ensures": true, "panics": true, "onpanic": true, "assigns": true,
-	"modular": true, "trusted": true, "loop": true, "property": true, "case": true, "pure": true, "harness": true, "nosafety": true}
+	"modular": true, "trusted": true, "loop": true, "property": true, "case": true, "pure": true, "harness": true, "nosafety": true, "maypanic": true, "split": true}
 
 func (w *World) loadContracts() {
 	var paths []string
@@ -166,6 +168,12 @@ func (w *World) parseContractFile(pkgPath, file string) {
 			lastClause = nil
 		case "nosafety":
 			cur.NoSafety = true
+			lastClause = nil
+		case "maypanic":
+			cur.MayPanic = true
+			lastClause = nil
+		case "split":
+			cur.Split = rest
 			lastClause = nil
 		case "trusted":
 			cur.Trusted = true
@@ -962,6 +970,48 @@ func (e *CEnv) call(n *ast.CallExpr) TV {
 			mt := m.T.Underlying().(*types.Map)
 			k := x.leafTerm(e.coerceKey(e.eval(n.Args[1]), mt.Key()).V)
 			return TV{Scalar{Select(x.heapGet(e.state(), mv.Obj).(MapT).Has, k)}, types.Typ[types.Bool]}
+		case "isdyn":
+			// isdyn(x, "pkg.Type"): the dynamic type of interface value x is that type
+			a := e.eval(n.Args[0])
+			tn := n.Args[1].(*ast.BasicLit).Value
+			tn = tn[1 : len(tn)-1]
+			var v Value = a.V
+			if r, ok := v.(RefV); ok {
+				v = x.resolveRef(r.T, a.T)
+			}
+			var cs []*Term
+			switch iv := v.(type) {
+			case IfaceV, IfaceM:
+				for _, k := range ifaceCases(iv) {
+					if k.V.Unk != nil {
+						cs = append(cs, And(k.C, Not(Eq(k.V.Unk, Const(32, 0))), Apply("isdyn:"+tn, BoolS, k.V.Unk)))
+					} else if k.V.Dyn != nil && typeString(k.V.Dyn) == tn {
+						cs = append(cs, k.C)
+					}
+				}
+			case RefV:
+				cs = append(cs, And(Not(Eq(iv.T, Const(32, 0))), Apply("isdyn:"+tn, BoolS, iv.T)))
+			default:
+				fail("contract: isdyn on %T", v)
+			}
+			if os.Getenv("SNESVC_DEBUG") != "" {
+				if im, ok := v.(IfaceM); ok {
+					cnt := map[string]int{}
+					for _, k := range im.Cases {
+						if k.V.Unk != nil {
+							cnt["unknown"]++
+						} else if k.V.Dyn == nil {
+							cnt["nil"]++
+						} else {
+							cnt[typeString(k.V.Dyn)]++
+						}
+					}
+					fmt.Fprintf(os.Stderr, "DBG isdyn(%s): %d cases %v\n", tn, len(im.Cases), cnt)
+				} else {
+					fmt.Fprintf(os.Stderr, "DBG isdyn(%s): value %T\n", tn, v)
+				}
+			}
+			return TV{Scalar{Or(cs...)}, types.Typ[types.Bool]}
 		case "isnil":
 			a := e.eval(n.Args[0])
 			return TV{Scalar{e.eqRef(a.V, RefV{Const(32, 0)})}, types.Typ[types.Bool]}
@@ -1103,8 +1153,14 @@ func (e *CEnv) callFn(f *ssa.Function, recv *TV, argx []ast.Expr) TV {
 		fail("contract: call of %s has %d normal outcomes (must be total and mergeable)", f.Name(), len(rets))
 	}
 	// facts assumed inside the callee (e.g. after recorded spec obligations) carry over
-	for _, a := range rets[0].St.Assume[len(st.Assume):] {
-		st.Assume = append(st.Assume, a)
+	have := map[int64]bool{}
+	for _, a := range st.Assume {
+		have[a.id] = true
+	}
+	for _, a := range rets[0].St.Assume {
+		if !have[a.id] {
+			st.Assume = append(st.Assume, a)
+		}
 	}
 	var rt types.Type
 	switch sig.Results().Len() {
@@ -1163,6 +1219,15 @@ func (e *CEnv) loc(ex ast.Expr) Ptr {
 		base := e.eval(n.X)
 		p, ok := base.V.(Ptr)
 		var bt types.Type = base.T
+		if _, isStruct := base.V.(StructV); isStruct && !ok {
+			// field of a struct VALUE (e.g. a value receiver): only its referenced contents are a location
+			switch fv := e.eval(n).V.(type) {
+			case SliceV:
+				return Ptr{Obj: fv.Obj, Path: fv.Base}
+			case MapV:
+				return Ptr{Obj: fv.Obj}
+			}
+		}
 		if !ok {
 			p = e.loc(n.X)
 			bt = base.T
